@@ -109,6 +109,12 @@ fn tag_hash(tag: u64) -> [u8; 32] {
     h
 }
 
+fn flip_bit(mut h: [u8; 32], rng: &mut ChaChaRng) -> [u8; 32] {
+    let bit = rng.gen_range(0..256);
+    h[bit / 8] ^= 1 << (bit % 8);
+    h
+}
+
 fn random_orchard_nf(rng: &mut ChaChaRng) -> orchard::note::Nullifier {
     loop {
         let mut b = [0u8; 32];
@@ -777,7 +783,12 @@ fn block_worker(cases: &[Value], part: usize, parts: usize, seed: u64) -> (u64, 
             None
         };
         let positions = positions_of(exp);
-        let mb = mat.block(&net, ab, height, height as u64, tag_hash(ab["hash"].as_u64().unwrap()), tag_hash(ab["prev"].as_u64().unwrap()), &positions);
+        // a previous-hash that does not connect differs from the prior block's hash in a single bit
+        let prev_bytes = match (&case["prior"]["hash"], &ab["prev"]) {
+            (a, b) if a == b || a.is_null() => tag_hash(b.as_u64().unwrap()),
+            (a, _) => flip_bit(tag_hash(a.as_u64().unwrap()), &mut mat.rng),
+        };
+        let mb = mat.block(&net, ab, height, height as u64, tag_hash(ab["hash"].as_u64().unwrap()), prev_bytes, &positions);
         let res = guarded(|| scan_block(&net, mb.cb.clone(), keys, &nullifiers, prior.as_ref()));
         let mut why = vec![];
         let got;
@@ -1028,13 +1039,10 @@ fn mode_wallet(scen_path: &str, out_path: &str) {
             let mut hash = [0u8; 32];
             mat.rng.fill_bytes(&mut hash);
             hash_tags.insert(ab["hash"].as_u64().unwrap(), hash);
+            // an unknown tag: a hash that differs from the true predecessor's in a single bit
             let prev = match hash_tags.get(&ab["prev"].as_u64().unwrap()) {
                 Some(h) => *h,
-                None => {
-                    let mut r = [0u8; 32];
-                    mat.rng.fill_bytes(&mut r);
-                    r
-                }
+                None => flip_bit(chain.hash_at(height - 1), &mut mat.rng),
             };
             // the height field of the block follows the abstract height (which a corruption may shift)
             let cb_height = base as u64 + ab["h"].as_u64().unwrap();
